@@ -6,11 +6,25 @@
 //! `Switch::actions` iterator is called with arbitrary assignments. Observation point 2
 //! (end-to-end): a real `Kanata` is driven into a state through `Sim` and the witness keys that
 //! come out at the OS are read (c10_e2e.rs).
+//!
+//! Age dimension of the end-to-end point: the ages that `key-timing` compares are u16 tick
+//! counters kept by the layout's history; "typed at least that long ago" has to stay true however
+//! long ago it was (an entry older than 65535 ticks compares as 65535). Two families let history
+//! entries really get that old through the stepper (real ticks, no hand-made `HistoricalEvent`s):
+//! a systematic, seed-independent one (c10_age.rs: every recency 1..=8 x newer entries typed
+//! before / after the long gap x ages around 2^15, the top compression edge, 65530..=65545 tick by
+//! tick, 2^16 + small thresholds, 70000 .. 3*2^16 x threshold triples on both sides of
+//! age mod 2^16 x lt/gt, plus key-history / input-history leaves on the same old entries), and a
+//! random one (c10_e2e.rs, `long`): the ordinary random scenarios (held keys, virtual keys,
+//! layers, all leaf kinds) with one or two gaps anywhere in the history replaced by a gap longer
+//! than the counter range, aimed at 65536*k + q(t) - 1 / + 0 / + 1 of a timing leaf.
 
 #[path = "c10_model.rs"]
 mod model;
 #[path = "c10_e2e.rs"]
 mod e2e;
+#[path = "c10_age.rs"]
+mod age;
 
 use crate::core::rng::Rng;
 use crate::core::{CaseOut, Check, Ctx};
@@ -668,13 +682,17 @@ fn n_random(ctx: &Ctx) -> u64 {
 fn n_e2e(ctx: &Ctx) -> u64 {
     ctx.tier.sel(9_000, 120_000)
 }
+/// random end-to-end scenarios with gaps longer than the range of the u16 age counters
+fn n_e2e_long(ctx: &Ctx) -> u64 {
+    ctx.tier.sel(2_000, 30_000)
+}
 
 impl Check for C10Check {
     fn id(&self) -> &'static str {
         "C10"
     }
     fn n_cases(&self, ctx: &Ctx) -> u64 {
-        exh_layout(ctx).cases + 1 + n_random(ctx) + n_e2e(ctx)
+        exh_layout(ctx).cases + 1 + n_random(ctx) + n_e2e(ctx) + age::n_cases(ctx) + n_e2e_long(ctx)
     }
     fn describe(&self, ctx: &Ctx, idx: u64) -> Value {
         let ne = exh_layout(ctx).cases;
@@ -685,8 +703,12 @@ impl Check for C10Check {
         } else if idx < ne + 1 + n_random(ctx) {
             let (u, sw, _) = random_direct(ctx, idx - ne - 1);
             json!({"part": "random-direct", "config": direct_config(&u, &sw)})
-        } else {
+        } else if idx < ne + 1 + n_random(ctx) + n_e2e(ctx) {
             e2e::describe(ctx, idx - ne - 1 - n_random(ctx))
+        } else if idx < ne + 1 + n_random(ctx) + n_e2e(ctx) + age::n_cases(ctx) {
+            age::describe(ctx, idx - ne - 1 - n_random(ctx) - n_e2e(ctx))
+        } else {
+            e2e::describe_long(ctx, idx - ne - 1 - n_random(ctx) - n_e2e(ctx) - age::n_cases(ctx))
         }
     }
     fn run_case(&self, ctx: &Ctx, idx: u64) -> CaseOut {
@@ -698,13 +720,17 @@ impl Check for C10Check {
             run_bf_exhaustive(&mut out);
         } else if idx < ne + 1 + n_random(ctx) {
             run_random_direct(&mut out, ctx, idx - ne - 1);
-        } else {
+        } else if idx < ne + 1 + n_random(ctx) + n_e2e(ctx) {
             e2e::run(&mut out, ctx, idx - ne - 1 - n_random(ctx));
+        } else if idx < ne + 1 + n_random(ctx) + n_e2e(ctx) + age::n_cases(ctx) {
+            age::run(&mut out, ctx, idx - ne - 1 - n_random(ctx) - n_e2e(ctx));
+        } else {
+            e2e::run_long(&mut out, ctx, idx - ne - 1 - n_random(ctx) - n_e2e(ctx) - age::n_cases(ctx));
         }
         out
     }
     fn rule(&self) -> String {
-        "Direct part: configuration text rendered from the harness's own expression tree is parsed by the real parser; the Action::Switch found in the layout is evaluated through Switch::actions (whole case list, and every case alone through a one-case Switch) and compared with a recursive evaluator. Exhaustive and seed-independent: every list of or/and/not trees (arity >= 1) of total size <= 7 quick / 8 thorough over leaves {a,b,c}, <= 6 / 7 over three two-word leaves {(input real a),(input-history virtual vk1 2),(base-layer l1)}, <= 6 / 7 over {a,(layer l1),(key-timing 2 gt 2304)}, each under all 8 truth assignments; every break/fallthrough pattern x truth pattern of case lists up to length 5. Random: 3 switches per case with 1-16 cases, expressions up to depth 8 and ~120 nodes, all ten item kinds, two-word items at every position, thresholds on every compression edge, 48/96 random states each with history ages placed on q(t)-1, q(t), q(t)+1. End-to-end part: a real Kanata is driven through Sim into a state (held keys, released keys, virtual keys, held and switched layers, gaps placed on threshold edges), the switch or fork key is pressed and the witness keys appearing at the OS are compared with the model (up to 8 firing cases exactly; above 8 only 'no non-firing case performed'). Non-trivial = a case/scenario that was evaluated; distinct = exhaustive chunk, or set of item kinds (random), or scenario class (e2e).".into()
+        "Direct part: configuration text rendered from the harness's own expression tree is parsed by the real parser; the Action::Switch found in the layout is evaluated through Switch::actions (whole case list, and every case alone through a one-case Switch) and compared with a recursive evaluator. Exhaustive and seed-independent: every list of or/and/not trees (arity >= 1) of total size <= 7 quick / 8 thorough over leaves {a,b,c}, <= 6 / 7 over three two-word leaves {(input real a),(input-history virtual vk1 2),(base-layer l1)}, <= 6 / 7 over {a,(layer l1),(key-timing 2 gt 2304)}, each under all 8 truth assignments; every break/fallthrough pattern x truth pattern of case lists up to length 5. Random: 3 switches per case with 1-16 cases, expressions up to depth 8 and ~120 nodes, all ten item kinds, two-word items at every position, thresholds on every compression edge, 48/96 random states each with history ages placed on q(t)-1, q(t), q(t)+1. End-to-end part: a real Kanata is driven through Sim into a state (held keys, released keys, virtual keys, held and switched layers, gaps placed on threshold edges), the switch or fork key is pressed and the witness keys appearing at the OS are compared with the model (up to 8 firing cases exactly; above 8 only 'no non-firing case performed'). Old-history-entry families (end-to-end, real ticks): systematic and seed-independent - recency 1..=8 x {newer entries typed after the long gap, all entries typed before it (several entries beyond the counter range at once), thorough also: an even older entry and a first long gap before the referenced key} x 38 quick / 63 thorough ages of the referenced entry (5000, 32767..32769, 65407/65408, every tick 65530..=65545, 65536+{199,200,201,1000,1001,2303,2304}, 70000, 100000, 131071..131073, 131222, 196611, 200000, ...) x 4 threshold triples {0,200,1000} {5,2303,30000} {12,65407,65534} {1,32767,65535}, each threshold as lt and as gt case plus (key-history k n), (input-history real k n+1), (key-timing 1 ..), (key-timing n+1 ..) and an and/not combination on the same history; random - 2000 quick / 30000 thorough scenarios of the ordinary end-to-end generator (timing-heavy leaves, thresholds 0..65535) in which one or two gaps anywhere in the history are longer than 65535 ticks, aimed so that the entry a key-timing leaf refers to is 65530..65545 or 65536*k + {q(t)-1, q(t), q(t)+1, 0..9, random} ticks old (k = 1..3). Violations found when a key-timing leaf refers to an entry older than 65535 ticks carry their own signature suffix. Non-trivial = a case/scenario that was evaluated; distinct = exhaustive chunk, or set of item kinds (random), or scenario class (e2e), or (layout, recency, threshold set) / (recency, comparison) of an old entry (age families).".into()
     }
     fn assumptions(&self) -> Vec<String> {
         vec![
@@ -712,6 +738,8 @@ impl Check for C10Check {
             "an operator with zero operands, e.g. (or), is accepted by the parser but outside the statement and is not generated".into(),
             "end-to-end: events are at least one tick apart, so the age of a key press at evaluation is the difference of arrival times; (input real k) is only asked about keys whose action creates a key state (plain keys, layer-while-held keys, virtual keys), not about layer-switch keys or the switch key itself".into(),
             "end-to-end with more than 8 firing fallthrough cases (beyond the 8-slot action queue) is only judged for 'no non-firing case is performed'; the lost actions are counted".into(),
+            "ages of history entries: an entry typed A ticks before the switch key is processed compares as min(A, 65535) - the age counters are 16 bit and 'at least that long ago' must stay true; so for an entry older than 65535 ticks (key-timing n gt T) is true and (key-timing n lt T) is false for every T that compresses to less than 65535, however many multiples of 65536 ticks have passed. The only threshold that compresses to 65535 is 65535 itself: there 'gt' can never be true although the guide says 'pressed later than $time'; the guide does not say how far back ages are known, so a scenario in which such a leaf refers to an entry older than 65535 ticks is not judged (counted as e2e_unjudged_threshold_65535_on_older_entry); the same leaf on entries up to 65535 ticks old is judged".into(),
+            "in the stepper every t:N really advances N layout ticks; the running program stops ticking while kanata is idle, so history entries older than 65535 ticks arise there only while something keeps kanata non-idle (or a large key-timing threshold keeps it ticking) - the property is about what the switch does with the state it is given, so these states are generated regardless of how likely they are".into(),
             "virtual key name -> coordinate is taken from Cfg.fake_keys in the direct part and checked by really pressing the virtual keys in the end-to-end part".into(),
         ]
     }
@@ -735,6 +763,26 @@ impl Check for C10Check {
             ("e2e_fork_left", 100),
             ("e2e_over8_firing", 5),
             ("e2e_timing_on_edge", 20),
+            // old-history-entry dimension (ages beyond the range of the u16 counters)
+            ("e2e_age_systematic_scenarios", ctx.tier.sel(2_400, 6_000)),
+            ("e2e_age_systematic_newer_entries_after_gap", 500),
+            ("e2e_age_systematic_all_entries_before_gap", 500),
+            ("e2e_long_random_scenarios", ctx.tier.sel(2_000, 30_000)),
+            ("e2e_timing_entry_older_than_65535", ctx.tier.sel(8_000, 40_000)),
+            ("e2e_old_entry_lt_leaf", 3_000),
+            ("e2e_old_entry_gt_leaf", 3_000),
+            ("e2e_old_entry_threshold_above_age_mod_65536", 3_000),
+            ("e2e_old_entry_threshold_below_age_mod_65536", 3_000),
+            ("e2e_old_entry_recency_ge_2", 3_000),
+            ("e2e_old_entry_recency_8", 300),
+            ("e2e_timing_age_32760_32775", 300),
+            ("e2e_timing_age_65400_65529", 300),
+            ("e2e_timing_age_65530_65545", 2_000),
+            ("e2e_timing_age_ge_70000", 2_000),
+            ("e2e_timing_age_ge_131072", 1_000),
+            ("e2e_two_or_more_entries_older_than_65535", 300),
+            ("e2e_key_history_entry_older_than_65535", 1_000),
+            ("e2e_input_history_entry_older_than_65535", 1_000),
         ]
     }
     fn exhaustive(&self, _ctx: &Ctx) -> bool {
